@@ -431,6 +431,38 @@ theorem renamed_column_carries_values (d d' : Data) (t a b : String) (hd : wfDat
     columnOf d' t b = columnOf d t a :=
   rename_moves_cells d d' t a b hd h
 
+/-- **values follow renames.** One open of any database whose rows fit its columns: the value an old row holds
+at column `c` is found afterwards under the name `logTrack` computes from the statements that succeeded — the
+same name when no statement touched the column, the new name after `RENAME COLUMN`. (`rows_preserved` is the
+case "no step renames away or drops `c`".) -/
+theorem values_follow_renames (tbl : Table) (orm : Schema) (hw : tbl.WF) (hne : tbl.steps ≠ []) (s : RStore)
+    (hd : wfData s.data = true) (t : String) (c0 : Bool) (h : List Bool) :
+    ∀ x ∈ runHistoryR Cfg.fixed tbl orm (some s) (c0 :: h),
+      ∃ f : Row → Row, rowsOf x.1.data t = (rowsOf s.data t).map f ∧
+        ∀ c c', logTrack t (sessionR Cfg.fixed tbl orm (some s) c0).2 c = some c' →
+          ∀ r ∈ rowsOf s.data t, ∀ v, cellOf r c = some v → cellOf (f r) c' = some v := by
+  intro x hx
+  rw [rows_after_any_history tbl orm hw hne (some s) c0 h x hx, sessionR_fixed tbl orm hne s c0]
+  by_cases he : (getSteps tbl (ridOf s.rev)).isEmpty
+  · refine ⟨id, by simp [he], ?_⟩
+    intro c c' ht r _ v hv
+    simp only [he, if_true, logTrack, Option.some.injEq] at ht
+    subst ht
+    exact hv
+  · refine ⟨logOnRow t (runStmtsR s.data (stmtsOf (getSteps tbl (ridOf s.rev)))).2, ?_, ?_⟩
+    · simp only [he, Bool.false_eq_true, if_false]
+      exact rowsOf_runStmtsR _ _ t
+    · intro c c' ht r hr v hv
+      simp only [he, Bool.false_eq_true, if_false] at ht
+      exact cell_tracked s.data _ t c c' hd r hr v hv ht
+
+/-- the statements attempted (and which of them succeed) do not depend on the rows -/
+theorem log_independent_of_rows (cfg : Cfg) (tbl : Table) (orm : Schema) (s : RStore) (c : Bool) :
+    (sessionR cfg tbl orm (some s) c).2 = (session cfg tbl orm (some s.store) c).2 := by
+  have h := sessionR_proj cfg tbl orm (some s) c
+  simp only [Option.map_some] at h
+  rw [h]
+
 /-- a database created by `open_database` holds every mapped table, no row, and the stamp -/
 theorem fresh_db_no_rows (tbl : Table) (orm : Schema) (c : Bool) :
     sessionR Cfg.fixed tbl orm none c = ({ data := emptyData orm, rev := .row (some (latestId tbl)) }, []) :=
@@ -483,6 +515,13 @@ theorem interrupted_then_opens_rows_preserved (tbl : Table) (orm : Schema) (hw :
 
 /-! ### the regenerated step list -/
 
+/-- the `revision`-table states a database of shape `v` is found in: no table, no row, `NULL`, an unknown id,
+the pinned id of its own revision -/
+def revStates (k : Nat) : List Rev :=
+  [.noTable, .empty, .row none, .row (some "0123456789abcdef0123456789abcdef")] ++
+    (if h : 0 < k ∧ k - 1 < revIds.length then [.row (some (revIds[k - 1]'h.2))] else [])
+
+
 /-- the only column that is the target of a rename (every other new column reads `NULL` on old rows) -/
 theorem rename_targets : renameTargets steps = [("object", "latent_samples_for_id")] := by decide
 
@@ -496,6 +535,40 @@ theorem mapped_values_survive (s : RStore) (hd : wfData s.data = true) (c0 : Boo
   intro tc htc x hx
   obtain ⟨f, hf, hp⟩ := rows_preserved table orm table_wf steps_nonempty s hd tc.1 c0 h x hx
   exact ⟨f, hf, hp tc.2 (orm_columns_never_removed tc htc)⟩
+
+/-- every historic shape that still has `object.latent_variables_for_id` and not yet the new name, in every
+state of its `revision` table: the first open moves the values to `latent_samples_for_id` … -/
+theorem latent_column_tracked :
+    ∀ v ∈ variants, ∀ rev ∈ revStates v.2.1, ∀ c : Bool,
+      hasCol v.2.2 "object" "latent_variables_for_id" = true →
+      hasCol v.2.2 "object" "latent_samples_for_id" = false →
+      logTrack "object" (session Cfg.fixed table orm (some { schema := v.2.2, rev := rev }) c).2
+        "latent_variables_for_id" = some "latent_samples_for_id" := by
+  decide +kernel
+
+/-- … so **latent samples stored under the old column name stay readable**: whatever rows such a database
+holds, after any history of opens every `object` row reads under `latent_samples_for_id` what it held under
+`latent_variables_for_id` -/
+theorem latent_values_survive_rename (s : RStore) (hd : wfData s.data = true)
+    (v : String × Nat × Schema) (hv : v ∈ variants) (hs : schemaOf s.data = v.2.2)
+    (hrev : s.rev ∈ revStates v.2.1)
+    (hold : hasCol v.2.2 "object" "latent_variables_for_id" = true)
+    (hnew : hasCol v.2.2 "object" "latent_samples_for_id" = false) (c0 : Bool) (h : List Bool) :
+    ∀ x ∈ runHistoryR Cfg.fixed table orm (some s) (c0 :: h),
+      ∃ f : Row → Row, rowsOf x.1.data "object" = (rowsOf s.data "object").map f ∧
+        ∀ r ∈ rowsOf s.data "object", ∀ w, cellOf r "latent_variables_for_id" = some w →
+          cellOf (f r) "latent_samples_for_id" = some w := by
+  intro x hx
+  obtain ⟨f, hf, hp⟩ := values_follow_renames table orm table_wf steps_nonempty s hd "object" c0 h x hx
+  refine ⟨f, hf, hp "latent_variables_for_id" "latent_samples_for_id" ?_⟩
+  rw [log_independent_of_rows]
+  have := latent_column_tracked v hv s.rev hrev c0 hold hnew
+  simpa [RStore.store, hs] using this
+
+/-- `latent_values_survive_rename` has instances: shape `A7` -/
+example : ∃ v ∈ variants, v.1 = "A7" ∧ hasCol v.2.2 "object" "latent_variables_for_id" = true ∧
+    hasCol v.2.2 "object" "latent_samples_for_id" = false ∧ wfData (sampleData v.2.2) = true ∧
+    schemaOf (sampleData v.2.2) = v.2.2 := by decide
 
 /-- non-vacuity and a concrete reading of the row theorems: shape `A7` (column `latent_variables_for_id`)
 stamped with revision 7, one row per table holding the column's name in every column. After `open; close;
@@ -588,12 +661,6 @@ theorem features_within_mapping : ∀ f ∈ features, ∀ tc ∈ f.2, tc ∈ col
 /-- no step renames away or drops anything a feature needs -/
 theorem feature_columns_never_removed :
     ∀ f ∈ features, ∀ tc ∈ f.2, ∀ st ∈ stmtsOf steps, st.removes tc.1 tc.2 = false := by decide
-
-/-- the `revision`-table states a database of shape `v` is found in: no table, no row, `NULL`, an unknown id,
-the pinned id of its own revision -/
-def revStates (k : Nat) : List Rev :=
-  [.noTable, .empty, .row none, .row (some "0123456789abcdef0123456789abcdef")] ++
-    (if h : 0 < k ∧ k - 1 < revIds.length then [.row (some (revIds[k - 1]'h.2))] else [])
 
 /-- **every feature works after the first open** of every historic database shape in every state of its
 `revision` table, whether or not the caller commits -/
